@@ -90,7 +90,7 @@ func cmdDev(args []string) {
 		if r.VC == nil {
 			continue
 		}
-		fmt.Printf("== %s (passes %d, stubs %v, inlined %v)\n", r.Key, r.Passes, r.StubsUsed, r.Inlined)
+		fmt.Printf("== %s (passes %d, stubs %v, inlined %v, abstracted %v)\n", r.Key, r.Passes, r.StubsUsed, r.Inlined, r.Abstracted)
 		for _, o := range r.VC.obls {
 			ok := o.Status == "unsat"
 			if o.Cover {
